@@ -593,7 +593,8 @@ def natural_variants(rng, setup, rec):
             var("index@0", lambda r: r["key"].__setitem__("i", -n - 1))
         elif key["k"] in ("intlist", "inttuple", "intvec", "flist", "ftuple") and key.get("v") and isinstance(key["v"][0], int) and not isinstance(key["v"][0], bool):
             for p in range(len(key["v"])):
-                var("index@%d" % p, lambda r, p=p: r["key"]["v"].__setitem__(p, rng.choice([n, -n - 1, n + 3])))
+                for bad_i in (n, -n - 1):       # both boundary values, at every position
+                    var("index@%d" % p, lambda r, p=p, bad_i=bad_i: r["key"]["v"].__setitem__(p, bad_i))
         elif key["k"] in ("boollist", "boolvec"):
             var("masklen", lambda r: r["key"]["v"].append(True))
             if key["v"]:
@@ -696,7 +697,7 @@ def run_index(check, seed, idx):
     hasher = hashlib.sha256()
     if sc is None:
         return {"trace": [], "digest": hasher.hexdigest(), "violations": [], "stats": stats, "states": [], "steps": 0, "prng": s}
-    setup, rec = sc
+    setup, rec = json.loads(json.dumps(sc))     # execute the JSON image, as a replay will
     states = set()
     viols = []
     first_trace = None
